@@ -330,12 +330,15 @@ def build_case(r, cid, spec, A, B, tier):
         L.append("diff %s x:%s" % (s, kv("", P[:d])[1:]))
         L.append("iw %s x:%s" % (s, kv("", P[:d])[1:]))
         L.append("dw %s x:%s" % (s, kv("", P[:d])[1:]))
+    for i in range(1, npts):
+        L.append("iw c x:%s" % kv("", X[i * d:(i + 1) * d])[1:])
     for s in ("c", "u", "t", "v"):
         L.append("integ " + s)
     # domain predicate: interior lattice, boundary, beyond each bound
     ins_t, ins_c = [], []
     lo, hi = {"linear": (-1.0, 1.0), "fourier": (0.0, 1.0), "laguerre": (0.0, 6.0), "hermite": (-3.0, 3.0)}[fam]
-    lat = [lo + (hi - lo) * k / 8.0 for k in range(9)]
+    nl = 16 if tier == "quick" else 32
+    lat = [lo + (hi - lo) * k / float(nl) for k in range(nl + 1)]
     base = [canon_point(r, fam, True) for _ in range(d)]
     for j in range(d):
         for t in lat:
@@ -362,6 +365,12 @@ def build_case(r, cid, spec, A, B, tier):
             ref = None
     if ref:
         L += [ref, ref.replace(" c ", " u ", 1), "dump c needed", "dump u needed", "clearref c", "clearref u"]
+    # dynamic construction: the candidate points are reported in transformed coordinates
+    if spec["family"] in ("localp", "wavelet"):
+        cand = "surp %s %s -1" % (H(r.choice([0.0, 1e-3, 1e-1])), r.choice(gl.REFINE))
+    else:
+        cand = "aw %s" % r.choice(["level", "iptotal", "qptotal", "hyperbolic"])
+    L += ["begin c", "begin u", "cand c " + cand, "cand u " + cand, "finish c", "finish u"]
     L += ["cleartrans u", "dump u meta points values qw hsupport hint", "dump c qw hsupport hint",
           "eval u x:%s" % kv("", X)[1:], "diff u x:%s" % kv("", X[:d])[1:], "integ u",
           "eval c x:%s" % kv("", X)[1:], "diff c x:%s" % kv("", X[:d])[1:], "integ c",
@@ -393,7 +402,8 @@ def build_conf_case(r, cid, spec, trunc, A, B, tier, order):
     L += [s.replace(" t ", " u ", 1) for s in ([setc, sett] if order == 0 else [sett, setc]) if s]
     L += ["dump c points values", "dump u meta points values"]
     L += ["eval c x:%s" % kv("", X)[1:], "eval u x:%s" % kv("", Y)[1:], "evalb u x:%s" % kv("", Y)[1:],
-          "iw c x:%s" % kv("", X[:d])[1:], "iw u x:%s" % kv("", Y[:d])[1:],
+          "iw c x:%s" % kv("", X[:d])[1:], "iw u x:%s" % kv("", Y[:d])[1:]] + ["iw c x:%s" % kv("", X[i * d:(i + 1) * d])[1:] for i in range(1, npts)] + [
+
           "hbasis c x:%s" % kv("", X)[1:], "hbasis u x:%s" % kv("", Y)[1:],
           "diff c x:%s" % kv("", X[:d])[1:], "diff u x:%s" % kv("", Y[:d])[1:], "integ c", "integ u",
           "clearconformal u"] + (["cleartrans u"] if A else []) + ["dump u meta points values qw", "eval u x:%s" % kv("", X)[1:]]
@@ -609,12 +619,18 @@ def check_linear(ctx, cid, info, steps, script):
                 ctx.count("skipped_both_raise_" + cmd)
             return None, None
         return obs_of(steps, "%s %s " % (cmd, sc_), tag, nth), obs_of(steps, "%s %s " % (cmd, st_), tag, nth)
-    tolv = 1e-12 * vscale
+    # conditioning guard: Lebesgue function of the canonical interpolant at the evaluation points
+    lam = max([1.0] + [math.fsum(abs(v) for v in s_.obs["iw"]) for s_ in steps if s_.cmd.startswith("iw c ") and "iw" in s_.obs])
+    ctx.stats["max_lebesgue_seen"] = max(ctx.stats.get("max_lebesgue_seen", 0.0), lam)
+    illcond = lam > 1e4
+    if illcond:
+        ctx.count("skipped_ill_conditioned_evaluate")
+    tolv = 1e-12 * vscale * lam
     for i in range(min(len(info["X"]), 2 * d)):
         j = i % d
         _, sc = inv_exact(fam, A[j], B[j], info["Y"][i])
         ctx.add_tie("inv %s %s %s %s %s %s" % (fam, H(A[j]), H(B[j]), H(info["Y"][i]), H(info["X"][i]), H(max(sc, 1e-300))), cid, "inv-ref")
-    if outs > 0:
+    if outs > 0 and not illcond:
         cmp_arrays("evaluate.pullback." + fam, "evaluate (transform set after loading)", *pair("eval", "c", "u", "eval"), tol=tolv)
         cmp_arrays("evaluate.pullback." + fam, "evaluate (values loaded after the transform)", *pair("eval", "v", "t", "eval"), tol=tolv)
         cmp_arrays("evaluateBatch.pullback." + fam, "evaluateBatch", *pair("evalb", "c", "u", "evalb"), tol=tolv)
@@ -632,11 +648,11 @@ def check_linear(ctx, cid, info, steps, script):
             ctx.count("differentiate_compared", len(dc))
             for j in range(d):
                 ctx.add_tie("jac %s %s %s %s %s" % (fam, H(A[j]), H(B[j]), H(jl[j]), H(abs(jl[j]))), cid, "jac-ref")
-    cmp_arrays("getInterpolationWeights.pullback." + fam, "getInterpolationWeights", *pair("iw", "c", "u", "iw"), tol=1e-12)
+    cmp_arrays("getInterpolationWeights.pullback." + fam, "getInterpolationWeights", *pair("iw", "c", "u", "iw"), tol=1e-12 * lam)
     hb = pair("hbasis", "c", "u", "hbasis")
     cmp_arrays("evaluateHierarchicalFunctions.pullback." + fam, "evaluateHierarchicalFunctions", hb[0], hb[1], tol=1e-12)
     wc_, wu_ = pair("dw", "c", "u", "dw")
-    if wc_ is not None and wu_ is not None and len(wc_) == len(wu_):
+    if wc_ is not None and wu_ is not None and len(wc_) == len(wu_) and not illcond:
         jl = [jac1(fam, A[j], B[j]) for j in range(d)]
         ws = max([1.0] + [abs(v) for v in wc_])
         for i, (c0, u0) in enumerate(zip(wc_, wu_)):
@@ -713,6 +729,14 @@ def check_linear(ctx, cid, info, steps, script):
         elif e1 is None:
             cmp_points("getNeededPoints after refinement", obs_of(steps, "dump c needed", "needed"), obs_of(steps, "dump u needed", "needed"))
             ctx.count("refinements_compared")
+    # ---- candidates of the dynamic construction
+    e1, e2 = exc_of(steps, "cand c"), exc_of(steps, "cand u")
+    b1, b2 = exc_of(steps, "begin c"), exc_of(steps, "begin u")
+    if (e1 is None) != (e2 is None) or (b1 is None) != (b2 is None):
+        V("construction.exception-differs", "beginConstruction / getCandidateConstructionPoints: canonical %s %s, transformed %s %s" % (b1, e1, b2, e2))
+    elif e1 is None and b1 is None:
+        cmp_points("getCandidateConstructionPoints", obs_of(steps, "cand c", "cand"), obs_of(steps, "cand u", "cand"))
+        ctx.count("construction_candidates_compared")
     # ---- clearDomainTransform restores the canonical behaviour bit-exactly
     mu = [s for s in steps if s.cmd.startswith("dump u meta")]
     if len(mu) >= 2:
@@ -796,6 +820,11 @@ def check_conformal(ctx, cid, info, steps, script):
         if vc is None or vu is None or hexl(vc) != hexl(vu):
             V("conformal.loaded-values-changed", "setting the transforms on a loaded grid changed the values")
         vscale = max([1.0] + [abs(v) for v in (vc or [])])
+        lam = max([1.0] + [math.fsum(abs(v) for v in s_.obs["iw"]) for s_ in steps if s_.cmd.startswith("iw c ") and "iw" in s_.obs])
+        if lam > 100.0:
+            # the Newton inverse is only accurate to 1e-12: the comparison is meaningless for an ill-conditioned interpolant
+            ctx.count("conformal_skipped_ill_conditioned")
+            return True
         key = K_ORDER if both else "conformal.evaluate.pullback"
         for cmd, tag in (("eval", "eval"), ("iw", "iw"), ("hbasis", "hbasis")):
             ec, eu = exc_of(steps, cmd + " c "), exc_of(steps, cmd + " u ")
@@ -806,7 +835,7 @@ def check_conformal(ctx, cid, info, steps, script):
             c0, u0 = obs_of(steps, cmd + " c ", tag), obs_of(steps, cmd + " u ", tag)
             if c0 is None or u0 is None or len(c0) != len(u0):
                 continue
-            tol = 1e-9 * (vscale if cmd == "eval" else 1.0)
+            tol = 1e-9 * lam * (vscale if cmd == "eval" else 1.0)
             for i, (a0, b0) in enumerate(zip(c0, u0)):
                 if not abs(a0 - b0) <= tol * max(1.0, abs(a0)):
                     V(key, "%s at the image of a canonical point: %r on the grid with %s, %r on the canonical grid at the pre-image (truncation %s%s)"
@@ -1102,6 +1131,11 @@ def run(res, tier, seed, replay_obj=None):
             spec = gen_spec(r, kind, rule, tier)
             if kind == "localp" and spec.get("order") == 0:
                 spec["order"] = 1
+            if kind in ("global", "sequence"):
+                spec["aw"] = []
+                spec["depth"] = min(spec["depth"], 3 if kind == "global" else 4)
+                if spec["type"] in ("iptotal", "qptotal", "ipcurved"):
+                    spec["type"] = "level"
             trunc = [r.randint(1, 8) if r.random() < 0.85 else 0 for _ in range(spec["dims"])]
             if i < 8:
                 trunc = [i + 1] * spec["dims"]
